@@ -1,7 +1,7 @@
 (** C11 — A query's answer does not depend on earlier queries (statements only; proofs in
     Proofs/BackwardProofs.v).  Model/Backward.v: BackwardEngine's memo table after repair dfacdc7 (keyed by
     the query and the canonical encoding of the facts; only failures are answered from it). *)
-From RRE Require Import Base.Sx Base.Float Base.Num Model.ExprShape Model.Forward Model.ForwardSpec Model.Backward Proofs.BackwardProofs.
+From RRE Require Import Base.Sx Base.Float Base.Num Model.ExprShape Model.Forward Model.ForwardSpec Model.Backward Proofs.BackwardProofs Proofs.BackwardEquivProofs.
 Open Scope Z_scope.
 
 (** Whatever queries were asked before, on whatever facts: the verdict of a query is the verdict a fresh
@@ -19,6 +19,28 @@ Theorem C11_fresh_engine_sound : forall rules max_depth, memo_sound rules max_de
 Proof. intros rules md q fx b H. destruct H. Qed.
 Print Assumptions C11_fresh_engine_sound.
 
+(** The premise above, discharged.  (1) The search reads a store only through its lookup function ... *)
+Theorem C11_verdict_depends_only_on_lookups : forall rules max_depth goal f f',
+  (forall k, fget f k = fget f' k) -> fst (dfs rules max_depth goal f) = fst (dfs rules max_depth goal f').
+Proof. exact dfs_feq. Qed.
+Print Assumptions C11_verdict_depends_only_on_lookups.
+
+(** (2) ... and for stores as the engine holds them (one entry per key, values integer / string / boolean /
+    null) the canonical encoding, from which the memo key is built, determines the lookup function. *)
+Theorem C11_memo_key_determines_lookups : forall f f',
+  dstore f -> dstore f' -> enc_facts f = enc_facts f' -> forall k, fget f k = fget f' k.
+Proof. exact enc_facts_determines_lookups. Qed.
+Print Assumptions C11_memo_key_determines_lookups.
+
+(** Hence, with no premise: along ANY history of queries on one engine, each asked on its own store
+    (so: facts asserted, changed, removed between queries, the same query repeated on different facts),
+    every verdict is the verdict of a fresh search on the facts passed in. *)
+Theorem C11_history_is_fresh : forall rules max_depth qs,
+  (forall q goal f, In (q, goal, f) qs -> dstore f /\ dec_bcond q = Some goal) ->
+  equeries rules max_depth {| memo := [] |} qs = map (fun '(q, goal, f) => fst (dfs rules max_depth goal f)) qs.
+Proof. intros rules md qs H. apply history_is_fresh; [|exact H]. intros q fx b []. Qed.
+Print Assumptions C11_history_is_fresh.
+
 (** non-vacuity: the history "ask (provable), remove the supporting fact, ask again" - the second answer
     is the fresh one (false), not the memoised true *)
 Definition ex11_f0 : str := [70; 48].  Definition ex11_f1 : str := [70; 49].
@@ -31,3 +53,5 @@ Example C11_example :
   let '(e2, (p2, f2)) := equery ex11_rules 3 e1 q ex11_goal [] in
   p1 = true /\ p2 = false.
 Proof. vm_compute. split; reflexivity. Qed.
+Example C11_example_stores_discrete : dstore [(ex11_f0, VBool true)] /\ dstore [].
+Proof. split; (split; [repeat constructor; intros []|]); intros k v Hin; cbn in Hin; [destruct Hin as [Hin|[]]; inversion Hin; exact I|destruct Hin]. Qed.
